@@ -19,6 +19,15 @@
     andstrict      `$and` parses every operand: one that raises after the first false operand
                    makes the `$and` raise              / evaluation stops at the first false
                    (kept: C20 relies on an unsupported operator in that position raising)
+    partsnull      `$dateFromParts` with a part that is null or missing: `month … millisecond`
+                   take their default, a null `year` is a TypeError        / the result is null
+    partszero      `$dateFromParts` with `month` or `day` 0 (or any part but the year "", [], {}):
+                   `value or default` takes the default (January, the 1st)
+                                      / 0 is carried: December of the year before, the last day
+                                        of the month before ("", [], {} are rejected)
+    partscarry     `$dateFromParts` with a part outside its calendar range (month 13, day 31 in
+                   April, hour 24, second 60, negative parts): ValueError / the excess is carried
+                   (`millisecond` is carried by the code as by the rules)
   Repaired in the library (no longer classes; their witnesses are run as ordinary cases):
     exprtruth, exprmissing, strcasecmp, numtype, adddate, concatstr, nullarg, condkeys, undefvar,
     filtertruth, mapmissing, missingcmp, minmaxtypes, sumbool; arrayliteral (fce7e55, 9ff1475: an
@@ -139,6 +148,34 @@ def strictReasons (k : String) (vs : List (Option Val)) : List String :=
     | _ => []
   else if k = "$min" || k = "$max" then pairwiseReasons (presentOf vs)
   else []                          -- `$sum` / `$avg` included: every value that is not a number is ignored
+
+/-! ### `$dateFromParts`: the classes of its evaluated named arguments -/
+
+/-- a part that Python counts as false and the rules do not read as its default -/
+def falsyPart (key : String) (args : Env) : Bool :=
+  match args.lookup key with
+  | some (some (.int n)) => n == 0 && (key = "month" || key = "day")
+  | some (some (.str s)) => s == ""
+  | some (some (.arr xs)) => xs.isEmpty
+  | some (some (.doc fs)) => fs.isEmpty
+  | _ => false
+
+/-- a part (taken with its default) outside its calendar range, 0 for month / day apart -/
+def partOutOfRange (args : Env) : Bool :=
+  let y := (partArg "year" args).getD 1970
+  let mo := (partArg "month" args).getD 1
+  let d := (partArg "day" args).getD 1
+  let h := (partArg "hour" args).getD 0
+  let mi := (partArg "minute" args).getD 0
+  let s := (partArg "second" args).getD 0
+  (mo != 0 && (mo < 1 || mo > 12)) ||
+  (d != 0 && (d < 1 || d > daysInMonth y (if mo < 1 || mo > 12 then 1 else mo))) ||
+  h < 0 || h > 23 || mi < 0 || mi > 59 || s < 0 || s > 59
+
+def partsReasons (args : Env) : List String :=
+  (if (partKeys.map (fun k => partArg k args)).any (· = .nullish) then ["partsnull"] else []) ++
+  (if (partKeys.drop 1).any (fun k => falsyPart k args) then ["partszero"] else []) ++
+  (if partOutOfRange args then ["partscarry"] else [])
 
 def okReasons {α} (r : R α) : List String :=
   match r with
@@ -270,6 +307,11 @@ mutual
          | .error _ => [])
       else if k = "$and" || k = "$or" then
         okReasons (sEval root env (.doc gs)) ++ rExpr root env (.doc gs)
+      else if k = "$dateFromParts" then
+        ["unproved:" ++ k] ++ (if nodupKeys gs then [] else ["dupkeys"]) ++ rFields root env gs ++
+        (match sVars root env gs with
+         | .ok args => partsReasons args
+         | .error _ => [])
       else ["unproved:" ++ k]
     | [(k, v)] =>
       if k = "$literal" then []
